@@ -158,6 +158,7 @@ def run_check(tier, seed, n_cases, hashseeds, nperm):
         'probes': {'set_iteration_order_actually_differed': len(order_sensitive)},
         'simulated_time': 'not applicable (no clock)', 'distinct_interleavings': 0,
         'seeds': f'VERIF_SEED={seed}',
+        'run_digest': __import__('hashlib').sha256(json.dumps([[c['id'], [[signature(r) for r in per_seed[hs][c['id']]] for hs in hashseeds]] for c in cases]).encode()).hexdigest(),
     }
     return rep.finish()
 
